@@ -32,7 +32,59 @@ class _WF1:
     deserialize = staticmethod(lambda s: Cf.WorkchainFormat.deserialize(s, 1))
 
 
+class _BPA:
+    deserialize = staticmethod(lambda s: B.BlkPrevInfo.deserialize(s, 0))
+
+
+class _BPB:
+    deserialize = staticmethod(lambda s: B.BlkPrevInfo.deserialize(s, 1))
+
+
+class _OutListView:
+    """OutList.deserialize returns the actions as a Python list (oldest first); block.tlb's view of the same value is
+    prev:^(OutList n) action:OutAction.  The view re-nests the list so that the schema's leaf paths can be walked."""
+    def __init__(self, lst):
+        if not isinstance(lst, list):
+            raise TypeError('OutList.deserialize did not return a list')
+        self.n = len(lst)
+        if lst:
+            self.prev = _OutListView(lst[:-1])
+            self.action = lst[-1]
+
+
+def _with_root_extra(parse, extra):
+    """the library's stand-alone HashmapAugE types leave the root extra of the dictionary to their caller (McStateExtra reads the
+    KeyMaxLt after OldMcBlocksInfo.deserialize; see the fix recorded for C16): the caller's step is replayed here"""
+    def f(s):
+        r = parse(s)
+        extra(s)
+        return r
+    return staticmethod(f)
+
+
+class _OMB:
+    deserialize = _with_root_extra(B.OldMcBlocksInfo.deserialize, B.KeyMaxLt.deserialize)
+
+
+class _SAS:
+    deserialize = _with_root_extra(B.ShardAccounts.deserialize, B.DepthBalanceInfo.deserialize)
+
+
+class _OL:
+    deserialize = staticmethod(lambda s: _OutListView(T.OutList.deserialize(s)))
+
+
 CLS = {
+    'BlkPrevInfoA': _BPA, 'BlkPrevInfoB': _BPB, 'OutList0': _OL, 'OutList1': _OL, 'OutList2': _OL, 'OutList3': _OL,
+    'OldMcBlocksInfo': _OMB, 'ShardAccounts': _SAS,
+    'ConfigParam1': Cf.ConfigParam1, 'ConfigParam2': Cf.ConfigParam2, 'ConfigParam3': Cf.ConfigParam3, 'ConfigParam4': Cf.ConfigParam4,
+    'ConfigParam8': Cf.ConfigParam8, 'ConfigParam10': Cf.ConfigParam10, 'ConfigParam11': Cf.ConfigParam11, 'ConfigParam13': Cf.ConfigParam13,
+    'ConfigParam14': Cf.ConfigParam14, 'ConfigParam20': Cf.ConfigParam20, 'ConfigParam21': Cf.ConfigParam21, 'ConfigParam22': Cf.ConfigParam22,
+    'ConfigParam23': Cf.ConfigParam23, 'ConfigParam24': Cf.ConfigParam24, 'ConfigParam25': Cf.ConfigParam25, 'ConfigParam28': Cf.ConfigParam28,
+    'ConfigParam29': Cf.ConfigParam29, 'ConfigParam33': Cf.ConfigParam33, 'ConfigParam34': Cf.ConfigParam34, 'ConfigParam35': Cf.ConfigParam35,
+    'ConfigParam36': Cf.ConfigParam36, 'ConfigParam37': Cf.ConfigParam37, 'ConfigParam44': Cf.ConfigParam44, 'ConfigParam71': Cf.ConfigParam71,
+    'ConfigParam72': Cf.ConfigParam72, 'ConfigParam73': Cf.ConfigParam73, 'ConfigParam79': Cf.ConfigParam79, 'ConfigParam81': Cf.ConfigParam81,
+    'ConfigParam82': Cf.ConfigParam82,
     'WorkchainFormat0': _WF0, 'WorkchainFormat1': _WF1, 'WcSplitMergeTimings': Cf.WcSplitMergeTimings, 'WorkchainDescr': Cf.WorkchainDescr,
     'ConsensusConfig': Cf.ConsensusConfig,
     'ConfigParam0': Cf.ConfigParam0, 'ConfigParam5': Cf.ConfigParam5, 'ConfigParam6': Cf.ConfigParam6, 'ConfigParam7': Cf.ConfigParam7,
@@ -83,7 +135,7 @@ def generate(tier, seed, ctx):
             try:
                 s = tlbkit.tree_to_cell(case['enc']).begin_parse()
                 obj = CLS[ty].deserialize(s)
-                rec['obs'] = tlbkit.observe(obj, case['flat'], ty)
+                rec['obs'] = tlbkit.observe(obj, case['flat'], case.get('base', ty))
                 rec['rem'] = {'bits': s.remaining_bits, 'refs': s.remaining_refs}
                 if ty == 'Message' and any(l['k'] == 'Cell' and l['path'] == ['body'] for l in case['flat']):
                     # body:(Either X ^X) with X = Any inline: "the rest of the cell" is the body; the library returns it with
